@@ -58,7 +58,9 @@ CLAIMED = {
             "block Gaussian q over (y,x), integrate_log_conditional_y as callable and evaluated, for the linear, identity and NN-controlled "
             "kinds, are proved equal to the Wick expectations; RBF and squared-exponential feature models: integrate_log_conditional_y (callable "
             "and evaluated, p_x batched or single) proved from the kernel moments; constructor contracts of every conditional class in every "
-            "argument combination. Not covered: integrate_log_conditional of the two feature models (block inverse of the tilted joint).",
+            "argument combination; integrate_log_conditional of the two feature models for an arbitrary Gaussian q over (y,x) (written in its "
+            "conditional factorisation; the tilted joint's inverse is the Schur-complement formula of the invert_matrix contract, Lean "
+            "inv_fromBlocks11), with p_x given or taken as the marginal.",
             BASE_NOTE + " G1, G2 assumed.", "DESIGN §6-C14"),
     "C15": ("Literal statement on equal parameters, both sides extracted from the real code: rank-one / linear / constant factors vs "
             "ConjugateFactor (evaluate, slice, product, multiply and hadamard in both update_full modes incl. Sherman-Morrison vs full "
@@ -70,9 +72,10 @@ CLAIMED = {
             "conditional transformation (= Gaussian conditional of the moment-matched joint) and the joint's mean / covariance blocks, R "
             "generic or 1 (Sherman-Morrison and rank-one determinant ghost steps for the squared-exponential kernels); heteroscedastic exp, "
             "cosh-1, step and rectified-linear links -- E[link(h)] (Gaussian mgf; truncated-measure contracts under vmap), moments, cross "
-            "terms, marginal, and for exp / cosh-1 also the conditional and the joint with its full class invariant (block inverse = Schur-"
-            "complement formula, Lean inv_fromBlocks11/22). NOT covered: Sigma*Lambda = I and ln det of the RBF / squared-exponential joints "
-            "(kernel incompleteness: resolvent identity), conditional / joint transformations of the step and ReLU links.",
+            "terms, marginal, the conditional transformation and the joint with its full class invariant for all four links (block inverse = "
+            "Schur-complement formula, Lean inv_fromBlocks11/22); RBF / squared-exponential joints: Sigma*Lambda = I, symmetry, ln det, "
+            "mu = Sigma nu, nu = Lambda mu. NOT covered: the lnZ / ln_beta clauses of the RBF / squared-exponential joints (canonicalisation "
+            "budget of the kernel).",
             BASE_NOTE + " G1, G2, G4 assumed; positive definiteness of moment-matched covariances is a precondition.", "DESIGN §6-C16, §11"),
     "C17": ("(a) coherent p(y|x): for the four links condition_on_x(x) has mean Mx+b, covariance AA' + A_k diag(link(Wx+w0)) A_k', and its "
             "precision / log-determinant ARE the inverse / log-determinant of that covariance in the regime Da = Dy (Lean det_gram_diag); in "
@@ -80,8 +83,11 @@ CLAIMED = {
             "_lower_bound_integrals are proved to be the expectations of the Jaakkola-Jordan / cosh surrogates for an ARBITRARY positive "
             "variational parameter, and integrate_log_conditional_y is proved to be their assembly (vmap modelled, lax.while_loop replaced by "
             "its contract); step link: get_lb_log_det and the per-unit quadratic term are proved EQUAL to the exact expectations (conditional "
-            "law of a Gaussian pair + truncated moments). That the surrogates bound the true integrands (G6) is assumed. NOT covered: ReLU "
-            "lower bound, clause (c) tightness (asymptotic statement).",
+            "law of a Gaussian pair + truncated moments); ReLU link: _get_omega_dagger = E[relu(h)], k_func and _lower_bound_integrals (cubic and "
+            "quartic) are proved to be the expectations of the tangent surrogates of ln(1+h) and h/(1+h) on the half line (linear tilt + "
+            "truncated moments up to order 4), the assembly being the base-class method proved for exp / cosh-1. That the surrogates bound "
+            "the true integrands (G6) is assumed. NOT covered: the fixed-point updates of omega inside lax.while_loop (replaced by the "
+            "contract 'any positive value'), clause (c) tightness (asymptotic statement).",
             BASE_NOTE + " G1-G4, G6 assumed where named.", "DESIGN §6-C17, §11"),
     "C18": ("Decides the contract-expressible part: the REAL registered flatten/unflatten lambdas (captured by substituting "
             "jax.tree_util.register_pytree_node) round-trip every factor / measure / density / conditional class in every cache state with "
